@@ -146,21 +146,33 @@ def validate(chk: Check, label, traces, infos, shards):
 # part 1: the bounded universe
 # ------------------------------------------------------------------------------------------
 
-def mini(chk: Check, alpha, maxtail, flagset, depth_deferred, depth_eager, shards):
+def mini(chk: Check, alpha, maxtail, flagset, depth_deferred, depth_eager, shards, split=False):
     I = impl()
     consts = ("CONSTANTS Alpha = %s MaxTail = %d FlagSet = %s Offs = {0, 1} DepthDeferred = %d DepthEager = %d "
               "DropsRest = FALSE DropsRawOnFail = FALSE MBT = %%s\n" % (alpha, maxtail, flagset, depth_deferred, depth_eager))
-    cfg = "SPECIFICATION Spec\n" + consts % "TRUE" + "INVARIANT Faithful\nINVARIANT Reassembles\nINVARIANT Selected\n"
-    p = os.path.join(chk.scratch, "pt-mc.cfg")
-    with open(p, "w") as f:
-        f.write(cfg)
-    res = common.run_tlc(os.path.join(common.SPECS, "PassThrough_MC.tla"), p, workers=1, scratch=chk.scratch, heap="8g")
-    chk.require_model_ok(res, "PassThrough_MC tail<=%d" % maxtail)
-    if not res.ok:
-        return
+    import concurrent.futures as cf
+
+    def one(i):
+        # the universe is split by flag byte so that the single-worker export runs in parallel processes
+        cfg = ("SPECIFICATION Spec\n" + (consts % "TRUE").replace("FlagSet = " + flagset, "FlagSet = " + parts[i])
+               + "INVARIANT Faithful\nINVARIANT Reassembles\nINVARIANT Selected\n")
+        p = os.path.join(chk.scratch, "pt-mc-%d.cfg" % i)
+        with open(p, "w") as f:
+            f.write(cfg)
+        return common.run_tlc(os.path.join(common.SPECS, "PassThrough_MC.tla"), p, workers=1, scratch=chk.scratch, heap="6g")
+    flags = [x.strip() for x in flagset.strip("{}").split(",")]
+    parts = ["{%s}" % f for f in flags] if split else [flagset]
+    with cf.ThreadPoolExecutor(max_workers=len(parts)) as ex:
+        mc = list(ex.map(one, range(len(parts))))
+    printed = []
+    for i, res in enumerate(mc):
+        chk.require_model_ok(res, "PassThrough_MC tail<=%d flags %s" % (maxtail, parts[i]))
+        if not res.ok:
+            return
+        printed += res.printed()
     universe, inits, hists = None, [], []
     dclasses = {}
-    for r in res.printed():
+    for r in printed:
         if "universe" in r:
             universe = r["universe"]
         elif "init" in r:
@@ -273,7 +285,7 @@ def real(chk: Check, per_template, shards, long_zero=4, many_blocks=4):
     def note(k):
         stats[k] = stats.get(k, 0) + 1
 
-    def one(shape, tmpl, maxlen=12, force_style=None, counts=(0, 1, 1, 2), kinds=None):
+    def one(shape, tmpl, maxlen=12, force_style=None, counts=(0, 1, 1, 2), kinds=None, big_count=0):
         hdr, bp, ty, _ = c01.gen_message(I, rng, shape, tmpl, counts=counts, maxlen=maxlen,
                                          hdr=dict(c01.gen_header(rng, rich=False), flags=0, acks=[]))
         kind = rng.choice(kinds or ["pristine", "pristine", "truncate", "extend", "drop-blocks", "flip", "truncate-z"])
@@ -287,6 +299,16 @@ def real(chk: Check, per_template, shards, long_zero=4, many_blocks=4):
         if st != "ok":
             note("unserializable-input")
             return
+        if big_count:
+            # the last block is a Variable one holding 64 instances: splice its instance bytes behind a count
+            # byte >= 128 by hand, so that the input does not depend on how the serializer writes such a count
+            st, m0 = impl_call(c01.build_message, I, shape, hdr, bp[:-1] + [[]], False)
+            st, b0 = impl_call(lambda: bytes(ser0.serialize(m0))) if st == "ok" else (st, m0)
+            if st != "ok" or b0[-1] != 0 or not base.startswith(b0[:-1]) or base[len(b0) - 1] != 64 or (len(base) - len(b0)) % 64:
+                note("big-count-splice-impossible")
+                return
+            inst = base[len(b0):]
+            base = b0[:-1] + bytes([big_count]) + (inst * 4)[:big_count * (len(inst) // 64)]
         body = base[6:]
         prefix = len(tmpl.freq_num_bytes) + len(hdr["extra"])
         if kind == "truncate" and len(body) > prefix:
@@ -345,11 +367,12 @@ def real(chk: Check, per_template, shards, long_zero=4, many_blocks=4):
         finally:
             c01.gen_bytes_field = saved
     # large repeat counts (count byte >= 128) on templates with small Variable blocks
-    small_var = [(s, t) for s, t in pairs if any(b["kind"] == "Variable" and c01.inst_size(b) <= 8 for b in s["blocks"])
-                 and sum(c01.inst_size(b) for b in s["blocks"]) <= 60]
+    small_var = [(s, t) for s, t in pairs if s["blocks"] and s["blocks"][-1]["kind"] == "Variable" and c01.inst_size(s["blocks"][-1]) <= 8
+                 and all(v["t"] != "Variable" for v in s["blocks"][-1]["vars"])
+                 and all(b["kind"] != "Variable" for b in s["blocks"][:-1]) and sum(c01.inst_size(b) for b in s["blocks"]) <= 60]
     for k in range(many_blocks):
         shape, tmpl = rng.choice(small_var)
-        one(shape, tmpl, maxlen=1, counts=(rng.choice([128, 129, 200, 255]),), kinds=["pristine", "pristine", "extend", "truncate"])
+        one(shape, tmpl, maxlen=1, counts=(64,), kinds=["pristine", "pristine", "pristine", "extend"], big_count=rng.choice([128, 129, 200, 255]))
     chk.cov["real_scenarios"] = dict(sorted(stats.items()))
     if len(traces) < 100:
         raise MachineryError("only %d real scenarios could be built" % len(traces))
@@ -375,6 +398,6 @@ def run(chk: Check):
         mini(chk, "{0, 1, 255}", 4, "{0, 128, 16, 144}", 3, 2, shards=10)
         real(chk, 2, shards=6)
     else:
-        mini(chk, "{0, 1, 255}", 6, "{0, 128, 16, 144}", 3, 2, shards=14)
+        mini(chk, "{0, 1, 255}", 6, "{0, 128, 16, 144}", 3, 2, shards=14, split=True)
         real(chk, 30, shards=14, long_zero=24, many_blocks=40)
     chk.cov["exhaustive"] = True
